@@ -80,6 +80,8 @@ namespace glm
 
 		genType const prev = highestBitValue(value);
 		genType const next = prev << 1;
+		if(next <= prev)
+			return prev; // the next power of two is not representable in genType
 		return (next - value) < (value - prev) ? next : prev;
 	}
 
